@@ -1,5 +1,6 @@
 import Flowjaxv.Proofs.Tree
 import Flowjaxv.Proofs.WrapGen
+import Flowjaxv.Proofs.UnwrapGen
 /-!
 # C12 — unwrap applies every wrapper exactly once; frozen parameters never move
 
@@ -330,5 +331,143 @@ theorem vmap_instance_WBs : WBs negF [2, 3] vmapNest ∧ IdxLt [1, 2] [2, 3] := 
     exact ⟨⟨⟨_, rfl, rfl⟩, _, rfl, forall_lt_three rfl rfl rfl⟩, _, rfl, forall_lt_three rfl rfl rfl⟩
   · simp only [sliceT, sliceL, WB, WBL, and_true, List.tail_cons, Arr.slice]
     exact ⟨⟨⟨_, rfl, rfl⟩, _, rfl, forall_lt_three rfl rfl rfl⟩, _, rfl, forall_lt_three rfl rfl rfl⟩
+
+/-! ## the TRAVERSAL regenerated from the source (`Gen/UnwrapGen.lean`; lemmas in `Proofs/UnwrapGen.lean`)
+
+`unwrap`, `AbstractUnwrappable.recursive_unwrap` (nested `vectorized_unwrap` / `v_unwrap`, the `for dim in reversed(_dummy.shape)` loop of
+`eqx.filter_vmap`s), `non_trainable` and the `eqx.partition(…, is_leaf = NonTrainable)` statements of `fit_to_data` /
+`fit_to_variational_target` are re-translated from `/repo` on every run (`tools/py2lean/py2meth.py`, sheet `targets_unwrap.py`) over the
+library meanings of `Model/UnwrapWorld.lean`; `genUnwrap` ties the recursion `unwrap → recursive_unwrap → unwrap` (`Model/UnwrapKnot.lean`).
+The theorems of the first groups are restated on these generated definitions. -/
+
+section UnwrapGen
+
+/-- generated traversal = hand model: for EVERY tree (any nesting depth, container width, number of batch levels), every per-class
+`.unwrap()` body `f`: the generated `unwrap` is `PyTree.unwrap`, with every amount of fuel that covers the nesting depth (so the value
+is the one the terminating Python recursion computes); the generated `recursive_unwrap` of a wrapper node is the model's clause for it;
+and the generated `vectorized_unwrap` of a wrapper whose children are `cs` is `applyW` — for a class with a `_dummy` of shape `b` one
+`filter_vmap` level per entry of `b`, outermost axis first (`applyB`). -/
+theorem gen_traversal_eq_model (f : WrapFn α) (t : Tree α) :
+    genUnwrap f t = unwrap f t ∧
+    (∀ n, wdepth t ≤ n → unwrapFuel f n t = genUnwrap f t) ∧
+    (∀ k tag b cs, genRecursiveUnwrap f (.wrap k tag b cs) = unwrap f (.wrap k tag b cs)) ∧
+    (∀ (W : UnwrapW.World α) k tag b cs,
+      GenUnwrap.recursiveUnwrap_vectorizedUnwrap W (.wrap k tag b cs) = applyW W.body k tag b cs) :=
+  ⟨genUnwrap_eq f t, fun n h => genUnwrap_fuel_stable f t n h, genRecursiveUnwrap_eq f, vectorizedUnwrap_eq⟩
+
+/-- the result of the GENERATED `unwrap` contains no wrapper node -/
+theorem gen_traversal_no_wrappers (f : WrapFn α) (hf : WrapFree f) (t : Tree α) :
+    noWrap (genUnwrap f t) = true := by
+  rw [genUnwrap_eq]; exact unwrap_noWrap hf t
+
+/-- the GENERATED `unwrap` is idempotent -/
+theorem gen_traversal_idempotent (f : WrapFn α) (hf : WrapFree f) (t : Tree α) :
+    genUnwrap f (genUnwrap f t) = genUnwrap f t := by
+  simp only [genUnwrap_eq]; exact unwrap_idem hf t
+
+/-- the GENERATED `unwrap` returns the tree of the instrumented run that applies every wrapper node of `t` exactly once, children
+before parents (the log is `wrapTags t`, post-order; with distinct tags every tag occurs once), and a second generated pass over the
+result applies nothing. -/
+theorem gen_traversal_each_once (f : WrapFn α) (hf : WrapFree f) (t : Tree α) (log : List Nat) (x : Nat) :
+    unwrapM f t log = (genUnwrap f t, log ++ wrapTags t) ∧
+      ((wrapTags t).Nodup → x ∈ wrapTags t → (unwrapM f t []).2.count x = 1) ∧
+      wrapTags (genUnwrap f t) = [] := by
+  refine ⟨by rw [genUnwrap_eq]; exact unwrapM_eq f t log, fun hnd hx => ?_, ?_⟩
+  · rw [unwrapM_eq]; simpa using count_eq_one_of_nodup hnd hx
+  · rw [genUnwrap_eq]; exact wrapTags_of_noWrap _ (unwrap_noWrap hf t)
+
+/-- vmapped construction, any number of levels, on the GENERATED `unwrap` (whose `vectorized_unwrap` loop builds the nest of
+`filter_vmap`s): the `is`-slice of the unwrapped batched tree is the unwrapped `is`-th individually built tree. -/
+theorem gen_traversal_vmapped (f : WrapFn α) (ns is : List Nat) (t : Tree α) (hi : IdxLt is ns) (h : WBs f ns t) :
+    sliceTs is (genUnwrap f t) = genUnwrap f (sliceTs is t) := by
+  simp only [genUnwrap_eq]; exact sliceTs_unwrap f ns is t hi h
+
+/-- generated traversal over the generated per-class bodies (nothing hand-modelled but the library meanings): wrapper-free and
+idempotent for every tree, bijection table and well-behaved `Lambda` function; slicing commutes under the batch-shape conditions. -/
+theorem gen_traversal_gen_bodies {β : Type} [Add β] [Sub β] [Mul β] [Div β] [Neg β] [LT β] [LE β] [BEq β]
+    [OfNat β 0] [OfNat β 1] [OfNat β 2] [OfNat β 4] [OfScientific β] [DecidableLT β] [DecidableLE β] [Transc β] [Inhabited β]
+    (bij : Nat → Bij β Unit β) (lam : Nat → List (Tree β) → Tree β)
+    (hl : ∀ tag cs, noWrapL cs = true → noWrap (lam tag cs) = true)
+    (hs : ∀ tag cs cs', SkL cs cs' = true → Sk (lam tag cs) (lam tag cs') = true) (t : Tree β) :
+    noWrap (genUnwrap (genWrapFn bij lam) t) = true ∧
+    genUnwrap (genWrapFn bij lam) (genUnwrap (genWrapFn bij lam) t) = genUnwrap (genWrapFn bij lam) t ∧
+    (∀ ns is, IdxLt is ns → WBgs (genWrapFn bij lam) ns t →
+      sliceTs is (genUnwrap (genWrapFn bij lam) t) = genUnwrap (genWrapFn bij lam) (sliceTs is t)) := by
+  have hf := genWrapFn_wrapFree bij lam hl
+  refine ⟨gen_traversal_no_wrappers _ hf t, gen_traversal_idempotent _ hf t, fun ns is hi h => ?_⟩
+  exact gen_traversal_vmapped _ ns is t hi (WBs_of_WBgs (genWrapFn_skUniform bij lam hs) ns t h)
+
+/-- generated `non_trainable` = the hand model `nonTrainableT` (every inexact array not already under a `NonTrainable` gets its own
+`NonTrainable` node); afterwards NO leaf is trainable and every array leaf of `t` is frozen, in the same order. -/
+theorem gen_non_trainable_spec (t : Tree α) :
+    GenUnwrap.nonTrainable t = nonTrainableT t ∧
+    trainableLeaves (GenUnwrap.nonTrainable t) = [] ∧
+    frozenLeaves (GenUnwrap.nonTrainable t) = leaves t ∧
+    leaves (GenUnwrap.fitToDataPartition (GenUnwrap.nonTrainable t)).1 = [] := by
+  refine ⟨genNonTrainable_eq t, ?_, ?_, ?_⟩
+  · rw [genNonTrainable_eq]; exact trainable_nonTrainableT t
+  · rw [genNonTrainable_eq]; exact frozen_nonTrainableT t
+  · rw [(genPartition_eq _).1, genNonTrainable_eq]
+    simp only [leaves_partP, trainable_nonTrainableT]
+
+/-- the partition statement of BOTH training loops (and of `get_ravelled_pytree_constructor` at its default filter), as generated: its halves are the model's `partP` / `partS`; the array leaves of
+the `static` half are exactly the frozen leaves (everything under a `NonTrainable`, every non-inexact array), those of the `params`
+half exactly the inexact arrays under no `NonTrainable`; no frozen leaf and no non-array leaf is in the `params` half; `combine` of the
+halves is the tree. -/
+theorem gen_partition_frozen_not_in_params (part : Tree α → Tree α × Tree α)
+    (hp : part = GenUnwrap.fitToDataPartition ∨ part = GenUnwrap.fitToVariationalTargetPartition ∨
+      part = fun t => GenUnwrap.ravelledConstructorPartition t UnwrapW.isInexactArray) (t : Tree α) :
+    part t = (partP t, partS t) ∧
+    leaves (part t).2 = frozenLeaves t ∧ leaves (part t).1 = trainableLeaves t ∧
+      (∀ l ∈ leaves (part t).1, l.2.1 = true) ∧ statics (part t).1 = [] ∧
+      (leaves t).length = (leaves (part t).1).length + (leaves (part t).2).length ∧
+      combine (part t).1 (part t).2 = t := by
+  have e : part t = (partP t, partS t) := by
+    rcases hp with rfl | rfl | rfl
+    · exact (genPartition_eq t).1
+    · exact (genPartition_eq t).2.1
+    · exact (genPartition_eq t).2.2
+  rw [e]
+  refine ⟨rfl, leaves_partS t, leaves_partP t, fun l hl => trainable_inexact t l (leaves_partP t ▸ hl), statics_partP t, ?_,
+    combine_part t⟩
+  simp only [leaves_partP, leaves_partS]; exact leaves_length_split t
+
+/-- training from the GENERATED partition: for every sequence of update trees applied to the generated `params` half, the tree the loop
+returns (`combine (p', static)`) has the frozen leaves of `t` with their values, the same non-array leaves, and re-partitioning it
+with the generated statement gives back `p'` and the unchanged `static` half. -/
+theorem gen_frozen_bit_identical (part : Tree α → Tree α × Tree α)
+    (hp : part = GenUnwrap.fitToDataPartition ∨ part = GenUnwrap.fitToVariationalTargetPartition ∨
+      part = fun t => GenUnwrap.ravelledConstructorPartition t UnwrapW.isInexactArray)
+    (add : Arr α → Arr α → Arr α) (t : Tree α) (us : List (Tree α)) (p' : Tree α)
+    (h : train add (part t).1 us = some p') :
+    frozenLeaves (combine p' (part t).2) = frozenLeaves t ∧
+      statics (combine p' (part t).2) = statics t ∧
+      part (combine p' (part t).2) = (p', (part t).2) := by
+  have e : ∀ u, part u = (partP u, partS u) := by
+    intro u
+    rcases hp with rfl | rfl | rfl
+    · exact (genPartition_eq u).1
+    · exact (genPartition_eq u).2.1
+    · exact (genPartition_eq u).2.2
+  rw [e t] at h ⊢
+  have r := frozen_bit_identical add t us p' h
+  exact ⟨r.2.1, r.2.2.1, by rw [e, r.1, r.2.2.2]⟩
+
+/-- non-vacuity by kernel evaluation of the GENERATED definitions: the two-level vmapped nest `BijectionReparam(Lambda(neg, x), b)`
+(`_dummy.shape = (2, 3)`) unwraps to `-2x` leafwise with fuel 2 (its nesting depth) and the slice/unwrap square commutes at index
+`[1, 2]`; the BNAF nest unwraps wrapper-free; generated `non_trainable` of the BNAF layer leaves nothing trainable; the generated
+partition of the frozen BNAF layer puts only the bias (id 14) in `params`. -/
+theorem gen_traversal_instance :
+    wdepth vmapNest = 2 ∧
+    genUnwrap negF vmapNest = .arr 7 true (.batch [.batch [.base [-2], .base [-4], .base [-6]],
+                                                     .batch [.base [-8], .base [-10], .base [-12]]]) ∧
+    sliceTs [1, 2] (genUnwrap negF vmapNest) = genUnwrap negF (sliceTs [1, 2] vmapNest) ∧
+    genUnwrap symF bnafLinear = .node [.arr 1001 true (.base []), .arr 14 true (.base [0, 0]), .static 1] ∧
+    (leaves (GenUnwrap.fitToVariationalTargetPartition bnafFrozen).1).map (·.1) = [14] ∧
+    (leaves (GenUnwrap.fitToDataPartition bnafFrozen).2).map (·.1) = [10, 11, 12, 11, 12, 13] ∧
+    (leaves (GenUnwrap.fitToDataPartition (GenUnwrap.nonTrainable bnafLinear)).1).map (·.1) = [] := by
+  refine ⟨?_, ?_, ?_, ?_, ?_, ?_, ?_⟩ <;> rfl
+
+end UnwrapGen
 
 end C12
